@@ -259,17 +259,21 @@ mod v_iface_seq {
         put16(f, 12, ethertype);
     }
 
-    /// Ethernet interface 02:00:00:00:00:01 / 192.168.1.1/24, one bound UDP socket; the neighbor cache (3 entries in this
-    /// build) starts with `prefill` entries for 192.168.1.10.. with symbolic hardware addresses and expiry instants.
-    /// Frame 1: ARP packet, all 28 octets free, to the broadcast or the own hardware address, from any source address;
-    /// frame 2: IPv4 packet to the own address (header concrete but for protocol and source address), 12 free octets;
-    /// frame 3: well-formed ARP request from 192.168.1.2 / 02:00:00:00:00:02 for the own address -> ARP reply;
-    /// frame 4: echo request from that host -> echo reply handed to the device, addressed to 02:00:00:00:00:02.
+    /// Ethernet interface 02:00:00:00:00:01 / 192.168.1.1/24 at a concrete instant, one bound UDP socket; the neighbor
+    /// cache (3 entries in this build) starts with `prefill` entries for 192.168.1.10, .11 (concrete, older than anything
+    /// learned later).
+    /// Frame 1: well-formed ARP request from 192.168.1.2 / 02:00:00:00:00:02 for the own address -> ARP reply (the peer
+    ///          is resolved first: a second cache fill AFTER the free ARP frame - symbolic cache contents and length -
+    ///          took the formula from 0.24 M to 0.89 M steps and out of 12 GB before the echo reply was even dispatched);
+    /// frame 2: ARP packet, all 28 octets free, to the broadcast or the own hardware address, from any source address;
+    /// frame 3: IPv4 packet to the own address (header concrete but for protocol and source address), 12 free octets;
+    /// frame 4: echo request from the peer -> echo reply handed to the device through the real dispatch_ip, addressed to
+    ///          the hardware address the cache holds for the peer: 02:00:00:00:00:02, unless frame 2 was a valid ARP
+    ///          packet that claimed 192.168.1.2 for another hardware address.
     #[cfg(all(feature = "proto-ipv4", feature = "medium-ethernet", feature = "socket-udp", not(feature = "medium-ip")))]
-    fn eth_seq_case(prefill: usize) {
+    fn eth_seq_case(prefill: usize, mode: u8) {
         let mut dev = CapDev::<64>::new(Medium::Ethernet, 1514, ChecksumCapabilities::ignored());
-        let now: i64 = kani::any();
-        kani::assume(now >= 0 && now < (1i64 << 50));
+        let now: i64 = 100_000_000;
         let t0 = Instant::from_micros(now);
         let mut iface = Interface::new(Config::new(HardwareAddress::Ethernet(EthernetAddress(OWN_MAC))), &mut dev, t0);
         iface.update_ip_addrs(|a| {
@@ -284,70 +288,27 @@ mod v_iface_seq {
         let mut storage = [SocketStorage::EMPTY];
         let mut sockets = SocketSet::new(&mut storage[..]);
         let uh = sockets.add(usock);
-        // neighbor cache: concrete keys (a symbolic number of entries makes every later offset in the interface symbolic),
-        // symbolic hardware addresses and expiry instants (what the code maintains: expires_at <= now + 60 s)
         let k10 = IpAddress::Ipv4(Ipv4Address::new(192, 168, 1, 10));
         let k11 = IpAddress::Ipv4(Ipv4Address::new(192, 168, 1, 11));
-        let k12 = IpAddress::Ipv4(Ipv4Address::new(192, 168, 1, 12));
-        if prefill == 3 {
-            let e0: i64 = kani::any();
-            let e1: i64 = kani::any();
-            let e2: i64 = kani::any();
-            kani::assume(e0 >= 0 && e0 <= now + 60_000_000 && e1 >= 0 && e1 <= now + 60_000_000 && e2 >= 0 && e2 <= now + 60_000_000);
-            let h0: [u8; 6] = kani::any();
-            let h1: [u8; 6] = kani::any();
-            let h2: [u8; 6] = kani::any();
-            kani::assume(h0[0] & 1 == 0 && h1[0] & 1 == 0 && h2[0] & 1 == 0);
-            iface.inner.neighbor_cache.fill_with_expiration(k10, HardwareAddress::Ethernet(EthernetAddress(h0)), Instant::from_micros(e0));
-            iface.inner.neighbor_cache.fill_with_expiration(k11, HardwareAddress::Ethernet(EthernetAddress(h1)), Instant::from_micros(e1));
-            iface.inner.neighbor_cache.fill_with_expiration(k12, HardwareAddress::Ethernet(EthernetAddress(h2)), Instant::from_micros(e2));
+        let peer = IpAddress::Ipv4(Ipv4Address::from_bits(PEER_U32));
+        if prefill == 2 {
+            iface.inner.neighbor_cache.fill_with_expiration(k10, HardwareAddress::Ethernet(EthernetAddress([0x02, 0, 0, 0, 0, 0x10])), Instant::from_micros(now + 10_000_000));
+            iface.inner.neighbor_cache.fill_with_expiration(k11, HardwareAddress::Ethernet(EthernetAddress([0x02, 0, 0, 0, 0, 0x11])), Instant::from_micros(now + 20_000_000));
         }
-        let far = Instant::from_micros(0);
-        let had10 = iface.inner.neighbor_cache.lookup(&k10, far).found();
-        let had11 = iface.inner.neighbor_cache.lookup(&k11, far).found();
-        let had12 = iface.inner.neighbor_cache.lookup(&k12, far).found();
 
-        // frame 1: free ARP packet
+        // frame 1: the peer asks for our hardware address
         let mut f1 = [0u8; 42];
-        let smac1: [u8; 6] = kani::any();
-        let to_bcast: bool = kani::any();
-        eth_header(&mut f1, if to_bcast { &[0xff; 6] } else { &OWN_MAC }, &smac1, 0x0806);
-        let arp: [u8; 28] = kani::any();
-        f1[14..].copy_from_slice(&arp);
+        eth_header(&mut f1, &[0xff; 6], &PEER_MAC, 0x0806);
+        put16(&mut f1, 14, 1);
+        put16(&mut f1, 16, 0x0800);
+        f1[18] = 6;
+        f1[19] = 4;
+        put16(&mut f1, 20, 1);
+        f1[22..28].copy_from_slice(&PEER_MAC);
+        put32(&mut f1, 28, PEER_U32);
+        put32(&mut f1, 38, OWN_U32);
         let r1 = iface.inner.process_ethernet(&mut sockets, PacketMeta::default(), &f1[..], &mut iface.fragments);
-        let r1_arp = matches!(r1, Some(EthernetPacket::Arp(_)));
-        crate::vassert!(r1.is_none() || r1_arp, "prop:c03_arp_answered_by_arp_only");
-        let spa1 = IpAddress::Ipv4(Ipv4Address::new(arp[14], arp[15], arp[16], arp[17]));
-        let learned1 = arp[14] == 192 && arp[15] == 168 && arp[16] == 1 && arp[17] != 0 && arp[17] != 255 && iface.inner.neighbor_cache.lookup(&spa1, t0).found();
-        let still10 = iface.inner.neighbor_cache.lookup(&k10, far).found();
-        let still11 = iface.inner.neighbor_cache.lookup(&k11, far).found();
-        let still12 = iface.inner.neighbor_cache.lookup(&k12, far).found();
-        let evicted1 = (had10 && !still10) || (had11 && !still11) || (had12 && !still12);
-
-        // frame 2: IPv4 packet for the own address, any protocol, any source, free upper-layer octets
-        let mut f2: [u8; 46] = kani::any();
-        let smac2: [u8; 6] = kani::any();
-        eth_header(&mut f2, &OWN_MAC, &smac2, 0x0800);
-        let proto: u8 = kani::any();
-        ipv4_header(&mut f2[14..], 32, proto, kani::any(), OWN_U32);
-        let r2 = iface.inner.process_ethernet(&mut sockets, PacketMeta::default(), &f2[..], &mut iface.fragments);
-        let r2_some = r2.is_some();
-        crate::vassert!(!matches!(r2, Some(EthernetPacket::Arp(_))), "prop:c03_ip_not_answered_by_arp");
-        let got2 = sockets.get::<udp::Socket>(uh).can_recv();
-
-        // frame 3: the peer asks for our hardware address
-        let mut f3 = [0u8; 42];
-        eth_header(&mut f3, &[0xff; 6], &PEER_MAC, 0x0806);
-        put16(&mut f3, 14, 1);
-        put16(&mut f3, 16, 0x0800);
-        f3[18] = 6;
-        f3[19] = 4;
-        put16(&mut f3, 20, 1);
-        f3[22..28].copy_from_slice(&PEER_MAC);
-        put32(&mut f3, 28, PEER_U32);
-        put32(&mut f3, 38, OWN_U32);
-        let r3 = iface.inner.process_ethernet(&mut sockets, PacketMeta::default(), &f3[..], &mut iface.fragments);
-        let arp_ok = match r3 {
+        let arp_ok = match r1 {
             Some(EthernetPacket::Arp(ArpRepr::EthernetIpv4 { operation, source_hardware_addr, source_protocol_addr, target_hardware_addr, target_protocol_addr })) => {
                 operation == ArpOperation::Reply
                     && source_hardware_addr == EthernetAddress(OWN_MAC)
@@ -357,9 +318,42 @@ mod v_iface_seq {
             }
             _ => false,
         };
-        let evicted3 = (still10 && !iface.inner.neighbor_cache.lookup(&k10, far).found())
-            || (still11 && !iface.inner.neighbor_cache.lookup(&k11, far).found())
-            || (still12 && !iface.inner.neighbor_cache.lookup(&k12, far).found());
+        crate::vassert!(arp_ok, "prop:c03_arp_request_answered");
+
+        // frame 2: free ARP packet
+        let mut f2 = [0u8; 42];
+        let smac2: [u8; 6] = kani::any();
+        let to_bcast: bool = kani::any();
+        eth_header(&mut f2, if to_bcast { &[0xff; 6] } else { &OWN_MAC }, &smac2, 0x0806);
+        let arp: [u8; 28] = kani::any();
+        f2[14..].copy_from_slice(&arp);
+        let r2 = iface.inner.process_ethernet(&mut sockets, PacketMeta::default(), &f2[..], &mut iface.fragments);
+        let r2_arp = matches!(r2, Some(EthernetPacket::Arp(_)));
+        crate::vassert!(r2.is_none() || r2_arp, "prop:c03_arp_answered_by_arp_only");
+        let claims_peer = arp[14] == 192 && arp[15] == 168 && arp[16] == 1 && arp[17] == 2;
+        let evicted = prefill == 2 && !iface.inner.neighbor_cache.lookup(&k10, t0).found();
+
+        // frame 3: IPv4 packet for the own address, any protocol, any source, free upper-layer octets
+        let mut f3: [u8; 46] = kani::any();
+        let smac3: [u8; 6] = kani::any();
+        eth_header(&mut f3, &OWN_MAC, &smac3, 0x0800);
+        let proto: u8 = kani::any();
+        ipv4_header(&mut f3[14..], 32, proto, kani::any(), OWN_U32);
+        let mut r3_some = false;
+        if mode & 1 != 0 {
+            let r3 = iface.inner.process_ethernet(&mut sockets, PacketMeta::default(), &f3[..], &mut iface.fragments);
+            r3_some = r3.is_some();
+            crate::vassert!(!matches!(r3, Some(EthernetPacket::Arp(_))), "prop:c03_ip_not_answered_by_arp");
+        }
+        let got3 = sockets.get::<udp::Socket>(uh).can_recv();
+
+        // the hardware address the cache now holds for the peer
+        let peer_hw = match iface.inner.neighbor_cache.lookup(&peer, t0) {
+            NeighborAnswer::Found(HardwareAddress::Ethernet(a)) => Some(a.0),
+            _ => None,
+        };
+        crate::vassert!(peer_hw.is_some(), "prop:c03_resolved_neighbor_still_resolved_after_arbitrary_frames");
+        crate::vassert!(claims_peer || peer_hw == Some(PEER_MAC), "prop:c03_neighbor_entry_unchanged_by_frames_not_claiming_its_address");
 
         // frame 4: echo request from the peer; the reply goes through the real dispatch to the (capturing) device token
         let mut f4 = [0u8; 46];
@@ -376,32 +370,51 @@ mod v_iface_seq {
         let mut sent_ok = false;
         if let Some(EthernetPacket::Ip(p)) = r4 {
             echo_ok = reply_is_echo_from_own(&p);
-            sent_ok = iface.inner.dispatch_ip(CapTx { st: &mut tx }, PacketMeta::default(), p, &mut iface.fragmenter).is_ok();
+            if mode & 2 != 0 {
+                sent_ok = iface.inner.dispatch_ip(CapTx { st: &mut tx }, PacketMeta::default(), p, &mut iface.fragmenter).is_ok();
+            }
         }
-        kani::cover!(learned1 && r1_arp, "free ARP frame was a valid request: sender learned, reply produced");
-        kani::cover!(if prefill == 3 { evicted1 && evicted3 } else { learned1 && got2 }, "full cache: an entry evicted by the free ARP frame and another by the peer's request / empty cache: sender learned and a datagram delivered");
-        kani::cover!(r2_some && proto == 6, "protocol unreachable sent for frame 2");
-        crate::vassert!(arp_ok, "prop:c03_arp_request_answered_after_arbitrary_frames");
+        kani::cover!(r2_arp && !claims_peer, "free ARP frame was a valid request from a new sender: reply produced");
+        kani::cover!(if prefill == 2 { evicted } else { r2_arp && claims_peer && peer_hw != Some(PEER_MAC) }, "full cache: the oldest entry evicted by the free ARP frame / otherwise: the frame claimed the peer's address for another hardware address");
+        kani::cover!(if mode & 1 != 0 { r3_some && proto == 6 } else { true }, "protocol unreachable sent for frame 3");
         crate::vassert!(echo_ok, "prop:c03_echo_request_answered_after_arbitrary_frames");
+        if mode & 2 == 0 {
+            return;
+        }
         crate::vassert!(sent_ok && tx.frames == 1 && tx.len0 == 46, "prop:c03_echo_reply_handed_to_the_device");
         let b = &tx.buf0;
-        crate::vassert!(b[0] == 0x02 && b[1] == 0 && b[2] == 0 && b[3] == 0 && b[4] == 0 && b[5] == 2, "prop:c03_echo_reply_to_the_requesters_hardware_address");
+        if let Some(hw) = peer_hw {
+            crate::vassert!(b[0] == hw[0] && b[1] == hw[1] && b[2] == hw[2] && b[3] == hw[3] && b[4] == hw[4] && b[5] == hw[5], "prop:c03_echo_reply_to_the_hardware_address_learned_for_the_requester");
+        }
         crate::vassert!(b[6] == 0x02 && b[11] == 1 && b[12] == 0x08 && b[13] == 0x00, "prop:c03_echo_reply_frame_header");
         crate::vassert!(b[14] == 0x45 && b[23] == 1 && b[26] == 192 && b[27] == 168 && b[28] == 1 && b[29] == 1 && b[30] == 192 && b[31] == 168 && b[32] == 1 && b[33] == 2, "prop:c03_echo_reply_ip_header");
         crate::vassert!(b[34] == 0 && b[35] == 0 && b[38] == (ident >> 8) as u8 && b[39] == ident as u8 && b[40] == (seq >> 8) as u8 && b[41] == seq as u8, "prop:c03_echo_reply_echoes_ident_and_sequence_number");
     }
 
-    // @harness props=C03 cfg=KE4u tier=q to=1800 mem=12 unwind=12 opts=nomem covers=3 funcs=InterfaceInner::process_ethernet;InterfaceInner::process_arp;ArpRepr::parse;neighbor::Cache::fill;InterfaceInner::process_ipv4;InterfaceInner::process_udp;InterfaceInner::process_icmpv4;InterfaceInner::dispatch_ip;InterfaceInner::lookup_hardware_addr bounds=Ethernet_medium,_192.168.1.1/24,_one_bound_UDP_socket,_EMPTY_neighbor_cache_(3_entries);_frame_1:_ARP_with_all_28_octets_free,_any_source_MAC,_to_broadcast_or_own_MAC;_frame_2:_IPv4_to_the_own_address_with_any_protocol_and_source,_12_free_upper-layer_octets;_frame_3:_ARP_request_from_192.168.1.2;_frame_4:_its_echo_request,_reply_emitted_through_dispatch_ip;_symbolic_start_time
+    // @harness props=C03 cfg=KE4u tier=q to=1800 mem=12 unwind=7 opts=nomem covers=3 funcs=InterfaceInner::process_ethernet;InterfaceInner::process_arp;ArpRepr::parse;neighbor::Cache::fill;InterfaceInner::process_ipv4;InterfaceInner::process_udp;InterfaceInner::process_icmpv4;InterfaceInner::dispatch_ip;InterfaceInner::lookup_hardware_addr bounds=Ethernet_medium,_192.168.1.1/24,_one_bound_UDP_socket,_concrete_instant,_neighbor_cache_of_3_entries_initially_EMPTY;_frame_1:_ARP_request_from_192.168.1.2;_frame_2:_ARP_with_all_28_octets_free,_any_source_MAC,_to_broadcast_or_own_MAC;_frame_3:_IPv4_to_the_own_address_with_any_protocol_and_source,_12_free_upper-layer_octets;_frame_4:_echo_request_from_192.168.1.2,_reply_emitted_through_dispatch_ip
     #[cfg(all(feature = "proto-ipv4", feature = "medium-ethernet", feature = "socket-udp", not(feature = "medium-ip")))]
     #[kani::proof]
     pub(crate) fn seq4_eth_arp_ip_then_echo() {
-        eth_seq_case(0);
+        eth_seq_case(0, 3);
     }
 
-    // @harness props=C03 cfg=KE4u tier=q to=1800 mem=12 unwind=12 opts=nomem covers=3 funcs=InterfaceInner::process_ethernet;InterfaceInner::process_arp;ArpRepr::parse;neighbor::Cache::fill;InterfaceInner::process_ipv4;InterfaceInner::process_udp;InterfaceInner::process_icmpv4;InterfaceInner::dispatch_ip;InterfaceInner::lookup_hardware_addr bounds=as_seq4_eth_arp_ip_then_echo_with_a_FULL_neighbor_cache:_entries_for_192.168.1.10/.11/.12_with_symbolic_hardware_addresses_and_expiry_instants_<=_now+60_s_(possibly_expired)
+    // @harness props=C03 cfg=KE4u tier=q to=1800 mem=12 unwind=7 opts=nomem covers=3 funcs=InterfaceInner::process_ethernet;InterfaceInner::process_arp;ArpRepr::parse;neighbor::Cache::fill;InterfaceInner::process_ipv4;InterfaceInner::process_udp;InterfaceInner::process_icmpv4;InterfaceInner::dispatch_ip;InterfaceInner::lookup_hardware_addr bounds=as_seq4_eth_arp_ip_then_echo_with_a_neighbor_cache_that_is_FULL_after_frame_1:_two_older_concrete_entries_for_192.168.1.10/.11,_so_that_a_new_sender_in_frame_2_evicts_the_oldest
     #[cfg(all(feature = "proto-ipv4", feature = "medium-ethernet", feature = "socket-udp", not(feature = "medium-ip")))]
     #[kani::proof]
     pub(crate) fn seq4_eth_arp_evict_ip_then_echo() {
-        eth_seq_case(3);
+        eth_seq_case(2, 3);
+    }
+
+    // @harness props=C03 cfg=KE4u tier=t to=1200 mem=12 unwind=7 opts=nomem covers=3 bounds=experiment
+    #[cfg(all(feature = "proto-ipv4", feature = "medium-ethernet", feature = "socket-udp", not(feature = "medium-ip")))]
+    #[kani::proof]
+    pub(crate) fn x_eth_e1() {
+        eth_seq_case(0, 2);
+    }
+    // @harness props=C03 cfg=KE4u tier=t to=1200 mem=12 unwind=7 opts=nomem covers=3 bounds=experiment
+    #[cfg(all(feature = "proto-ipv4", feature = "medium-ethernet", feature = "socket-udp", not(feature = "medium-ip")))]
+    #[kani::proof]
+    pub(crate) fn x_eth_e2() {
+        eth_seq_case(2, 2);
     }
 }
